@@ -55,6 +55,26 @@ func (w *C16) Run(t *rt.Tape, trace bool, seed uint64) *core.Result {
 	// window mode: consecutive byte offsets of one direction, one mask - dense
 	// local enumeration instead of scattered samples
 	win := twopc.NewWindow(t, ref.GE, ref.EG)
+	// A program with a struct argument has nested descriptors (name, type, size,
+	// member count per member) in its header: three quarters of these cases enumerate a
+	// window of the header densely, since the evaluator lays out its own input
+	// by what the header says.
+	nested := false
+	for _, in := range c.Circ.Inputs {
+		if len(in.Compound) > 1 {
+			nested = true
+		}
+	}
+	if nested && len(ref.GE) > 64 && t.Choose(rt.SFault, 4) != 0 {
+		win = &twopc.Window{Dir: 0, Start: 32 + t.Choose(rt.SFault, min(200, len(ref.GE)-32)), Len: len(ref.GE), Trials: 96, Clean: ref.GE}
+		switch k := t.Choose(rt.SFault, 7); k {
+		case 0, 1, 2, 3:
+			win.Mask = []byte{0x01, 0x80, 0xff, 0x10}[k]
+		default:
+			win.Set = k - 3
+		}
+		res.Reach["window-enumerations.struct-argument-header"]++
+	}
 	if win != nil {
 		trials = win.Trials
 		res.Reach["window-enumerations"]++
